@@ -15,7 +15,14 @@ pub struct C05;
 
 #[derive(Serialize, Deserialize, Clone, Debug)]
 pub enum C05Case {
-    Model { main: Vec<(u32, Val)>, filesigs: Option<Val> },
+    /// `order`: sort keys that permute the index records (empty = ascending tag order); the
+    /// accessors must find a tag wherever its record sits in the index
+    Model {
+        main: Vec<(u32, Val)>,
+        filesigs: Option<Val>,
+        #[serde(default)]
+        order: Vec<u16>,
+    },
     Asset(u8),
 }
 
@@ -150,8 +157,8 @@ fn mat() -> BoxedStrategy<Mat> {
 fn model_strategy() -> BoxedStrategy<C05Case> {
     let table = tag_table();
     let n = table.len();
-    (proptest::collection::vec(mat(), n), proptest::collection::vec((0u8..10, 0usize..5), 11), proptest::option::weighted(0.3, mat()))
-        .prop_map(move |(mats, groups, fs)| {
+    (proptest::collection::vec(mat(), n), proptest::collection::vec((0u8..10, 0usize..5), 11), proptest::option::weighted(0.3, mat()), prop_oneof![2 => Just(vec![]), 1 => proptest::collection::vec(any::<u16>(), n)])
+        .prop_map(move |(mats, groups, fs, order)| {
             let mut main: BTreeMap<u32, Val> = BTreeMap::new();
             for (i, (tag, ty, group)) in table.iter().enumerate() {
                 let m = &mats[i];
@@ -198,7 +205,7 @@ fn model_strategy() -> BoxedStrategy<C05Case> {
                 main.insert(t::FILEDIGESTALGO, Val::Int32(vec![8]));
             }
             let filesigs = fs.map(|m| if m.mode >= 16 { m.wrong.clone() } else { make_val(Ty::StrArr, &m.strs, &m.ints) });
-            C05Case::Model { main: main.into_iter().collect(), filesigs }
+            C05Case::Model { main: main.into_iter().collect(), filesigs, order }
         })
         .boxed()
 }
@@ -698,7 +705,7 @@ impl Property for C05 {
         C05
     }
     fn rule(&self) -> String {
-        "well-formed hand-encoded headers (sorted unique tags, correct layout) in which each of ~100 tags read by the accessors is absent, present with its proper type (0..5 items, multi-locale i18n, empty/multi-byte/non-UTF-8 strings, 32- and 64-bit sizes, in- and out-of-range directory indexes) or present with any other of the 10 types; dependency/changelog/file tag groups are generated absent, consistent or independently broken; plus the six assets decoded independently. Every public accessor and every typed getter is compared with the value an independent decoding of the model gives. Non-trivial = at least one scalar accessor returned a non-empty value and at least one returned an error; distinct by hash of the header.".into()
+        "well-formed hand-encoded headers (unique tags, correct layout, index records in ascending or permuted order) in which each of ~100 tags read by the accessors is absent, present with its proper type (0..5 items, multi-locale i18n, empty/multi-byte/non-UTF-8 strings, 32- and 64-bit sizes, in- and out-of-range directory indexes) or present with any other of the 10 types; dependency/changelog/file tag groups are generated absent, consistent or independently broken; plus the six assets decoded independently. Every public accessor and every typed getter is compared with the value an independent decoding of the model gives. Non-trivial = at least one scalar accessor returned a non-empty value and at least one returned an error; distinct by hash of the header.".into()
     }
     fn assumptions(&self) -> Vec<String> {
         vec![
@@ -707,7 +714,7 @@ impl Property for C05 {
         ]
     }
     fn required_labels(&self, _t: Tier) -> Vec<&'static str> {
-        vec!["model", "asset", "multi-locale-i18n", "i18n-zero-items", "wrong-type-present", "file-entries-nonempty", "long-sizes", "dirindex-out-of-range", "count-zero-scalar"]
+        vec!["model", "asset", "unsorted-index", "multi-locale-i18n", "i18n-zero-items", "wrong-type-present", "file-entries-nonempty", "long-sizes", "dirindex-out-of-range", "count-zero-scalar"]
     }
     fn phases(&self, tier: Tier) -> Vec<Phase<C05Case>> {
         vec![
@@ -719,7 +726,7 @@ impl Property for C05 {
         let mut o = Outcome::new();
         let r = (|| -> Result<(), (String, String)> {
             let (bytes, main, sig): (Vec<u8>, BTreeMap<u32, Val>, BTreeMap<u32, Val>) = match case {
-                C05Case::Model { main, filesigs } => {
+                C05Case::Model { main, filesigs, order } => {
                     o.label("model");
                     let mainmap: BTreeMap<u32, Val> = main.iter().cloned().collect();
                     let table = tag_table();
@@ -750,7 +757,14 @@ impl Property for C05 {
                             o.label("dirindex-out-of-range");
                         }
                     }
-                    let entries: Vec<(u32, Val)> = mainmap.iter().map(|(k, v)| (*k, v.clone())).collect();
+                    let mut entries: Vec<(usize, (u32, Val))> = mainmap.iter().map(|(k, v)| (*k, v.clone())).enumerate().collect();
+                    if !order.is_empty() {
+                        entries.sort_by_key(|(i, _)| (order[i % order.len()], *i));
+                        if entries.windows(2).any(|w| w[0].1 .0 > w[1].1 .0) {
+                            o.label("unsorted-index");
+                        }
+                    }
+                    let entries: Vec<(u32, Val)> = entries.into_iter().map(|(_, e)| e).collect();
                     let hdr = fmt::layout(&entries, Some(fmt::TAG_HEADERIMMUTABLE));
                     let mut sigmap = BTreeMap::new();
                     if let Some(v) = filesigs {
